@@ -67,6 +67,25 @@ CLAIMS["C44"] = ("other", "table agreement between MJX state/field tables (Pytho
                  "exactly the declared fields with the C shapes. jit/vmap transparency and values are not decided.",
                  "Trusts clang's AST and Python's ast.", "DESIGN.md 4/C44")
 
+CLAIMS["C46"] = ("other", "path-sensitive must-fact dataflow over Python ast: provenance of every residual() argument, dominance of the "
+                 "accept assignment by the sufficient-decrease test",
+                 "Decides for all residual functions, start points and bounds: every argument handed to the user's residual is clipped to "
+                 "the bounds, an inward finite-difference point, or a value already shown safe; the iterate is replaced only where the "
+                 "Armijo test on that candidate's own objective passed; the returned point and every trace entry are accepted iterates "
+                 "paired with their own objective. The sign of the predicted decrease and the global minimum for linear residuals are "
+                 "not decided.", "Trusts Python's ast; numpy idiom tables are explicit in the checker.", "DESIGN.md 4/C46")
+CLAIMS["C47"] = ("other", "sign-domain abstract interpretation of the log-Cholesky factor + symbolic slot round-trip over Python ast",
+                 "Decides for every real 10-vector: the factor built from theta is triangular with a strictly positive diagonal (exp "
+                 "products), the pseudo-inertia is its Gram matrix, the mass is a diagonal element, and the inverse map reads every theta "
+                 "slot from the position the forward map wrote it (symbolic round trip theta->U->theta = identity per slot). The theorem "
+                 "'triangular with positive diagonal => U U^T positive definite => triangle inequalities' is the trusted step; compiled mass "
+                 "properties are not decided.", "Trusts Python's ast and the linear-algebra theorem named in the text.", "DESIGN.md 4/C47")
+CLAIMS["C48"] = ("other", "alias/mutation analysis (fresh vs view-of-parameter lattice, callee summaries) over Python ast",
+                 "Decides for every function of the three signal modules on every path: no in-place store, augmented assignment, out= or "
+                 "in-place method reaches memory owned by a parameter, and the modifiers return newly constructed series. Interpolation "
+                 "values are not decided.", "Trusts Python's ast; numpy allocating/view idiom tables are explicit in the checker.",
+                 "DESIGN.md 4/C48")
+
 NOT_APPLICABLE = {
     "C06": "numerical identities of M, LTDL and RNE over real-valued runtime data; no clause is visible in code shape",
     "C07": "'J equals the derivative of position' and proper-rotation claims are numerical; joint-type exhaustiveness is decided under C05",
